@@ -70,6 +70,7 @@ func (f *fragmentSpreadInlineVisitor) replaceFragmentSpread(selectionSetRef int,
 	var fragmentUnionIntersectsEnclosingInterface bool
 	var fragmentInterfaceIntersectsEnclosingUnion bool
 	var fragmentInterfaceIntersectsEnclosingInterface bool
+	var fragmentUnionIntersectsEnclosingUnion bool
 
 	if fragmentNode.Kind == ast.NodeKindInterfaceTypeDefinition && f.EnclosingTypeDefinition.Kind == ast.NodeKindObjectTypeDefinition {
 		enclosingTypeImplementsFragmentType =
@@ -103,6 +104,11 @@ func (f *fragmentSpreadInlineVisitor) replaceFragmentSpread(selectionSetRef int,
 		fragmentTypeIsMemberOfEnclosingUnionType = f.definition.NodeIsUnionMember(fragmentNode, f.EnclosingTypeDefinition)
 	}
 
+	// a fragment on a union inside another union that shares a member with it (abstract spread in abstract scope)
+	if f.EnclosingTypeDefinition.Kind == ast.NodeKindUnionTypeDefinition && fragmentNode.Kind == ast.NodeKindUnionTypeDefinition {
+		fragmentUnionIntersectsEnclosingUnion = f.definition.UnionNodeIntersectsUnionNode(f.EnclosingTypeDefinition, fragmentNode)
+	}
+
 	replaceWith := f.operation.FragmentDefinitions[fragmentDefinitionRef].SelectionSet
 	typeCondition := f.operation.FragmentDefinitions[fragmentDefinitionRef].TypeCondition
 
@@ -122,7 +128,8 @@ func (f *fragmentSpreadInlineVisitor) replaceFragmentSpread(selectionSetRef int,
 		enclosingTypeIsMemberOfFragmentUnion ||
 		fragmentUnionIntersectsEnclosingInterface ||
 		fragmentInterfaceIntersectsEnclosingUnion ||
-		fragmentInterfaceIntersectsEnclosingInterface:
+		fragmentInterfaceIntersectsEnclosingInterface ||
+		fragmentUnionIntersectsEnclosingUnion:
 
 		f.operation.ReplaceFragmentSpreadWithInlineFragment(selectionSetRef, ref, replaceWith, typeCondition, directiveList)
 
